@@ -473,6 +473,8 @@ class Parser:
             if not self._context.get_routine(name).undefined:
                 return self.token_error('Already defined: "{}"')
             return self._routine_definition(name)
+        if not self._context.get_macro(name).undefined:
+            return self.trigger_error('Already defined: "{}"'.format(name))
         return self._macro_definition(name)
 
     def _detect_routine_start(self) -> bool:
